@@ -21,7 +21,7 @@ def run(ctx):
             trace = ctx.path("trace_%s_%d.ndjson" % (family, g))
             diffs = ctx.path("diffs_%s_%d.ndjson" % (family, g))
             p = ctx.harness(["core", "concurrent", "--cases", cases_path, "--out", trace, "--diffs", diffs, "--g", g,
-                             "--rounds", 12 if thorough else 4], race=True, check=False, timeout=1500,
+                             "--rounds", 40 if thorough else 4], race=True, check=False, timeout=1500,
                             env={"GORACE": "halt_on_error=0 exitcode=0", "VERIF_SEED": str(ctx.seed * 100 + g)})
             if p.returncode != 0:
                 raise vlib.MachineryError("concurrent driver failed rc=%d: %s" % (p.returncode, p.stderr[-1500:]))
